@@ -362,6 +362,13 @@ async def _one(case, token, obs, streams=None, cancel_fn=None):
 
     loop.at(t0 + case["D"] + 4 * P_TICKS_DEFAULT + 1024, release)
     restore_logging = _debug_logging() if case.get("debug") else None
+    warn_ctx = None
+    if case.get("warnErr"):
+        # a host that runs with warnings as errors (python -W error, pytest filterwarnings = error)
+        import warnings
+        warn_ctx = warnings.catch_warnings()
+        warn_ctx.__enter__()
+        warnings.simplefilter("error")
     try:
         res = _HUNG
         with anyio.move_on_after(guard_s + vloop.TICK):
@@ -407,6 +414,8 @@ async def _one(case, token, obs, streams=None, cancel_fn=None):
         obs["text"] = str(ex)[:200]
     if restore_logging is not None:
         restore_logging()
+    if warn_ctx is not None:
+        warn_ctx.__exit__(None, None, None)
     obs["t"] = loop.ticks - t0
     obs["start"] = t0
     drain.final = True
